@@ -906,7 +906,7 @@ func runC02(c *Ctx) {
 	var ws, rs []string
 	badW, badR := "", ""
 	for _, fn := range []*ssa.Function{x.bootAlloc, v} {
-		for _, b := range fn.Blocks {
+		for _, b := range m.blocksOf(fn) {
 			for _, in := range b.Instrs {
 				c.Evals++
 				switch t := in.(type) {
@@ -948,6 +948,9 @@ func runC02(c *Ctx) {
 					}
 				case *ssa.Call:
 					cal := m.callee(t.Common())
+					if m.helperOf(t) != nil {
+						continue // spliced: its body is examined here
+					}
 					if cal != x.visit && cal != nil && cal.Pkg != nil && strings.HasPrefix(cal.Pkg.Pkg.Path(), kernelMod) {
 						badR = "the allocation calls " + m.fnName(cal) + " (only multiboot.VisitMemRegions is expected)"
 					}
